@@ -277,3 +277,27 @@ case("c06-nonce-init-v", "C06", SECP, '    v = b"\\x01" * 32\n    k = b"\\x00" *
 case("c06-twin-flag-var", "C06", SECP, "    v, r, s = 27 + ((y % 2) ^ (0 if s * 2 < N else 1)), r, s if s * 2 < N else N - s",
      "    high = not s * 2 < N\n    v, r, s = 27 + ((y % 2) ^ (1 if high else 0)), r, N - s if high else s", expect="silent")
 case("c06-twin-half", "C06", SECP, "r, s if s * 2 < N else N - s", "r, s if 2 * s < N else N - s", expect="silent", more=[(SECP, "(0 if s * 2 < N else 1)", "(0 if 2 * s < N else 1)", 1)])
+
+RC_BN = "py_ecc/bn128/bn128_curve.py"
+RC_BLS = "py_ecc/bls12_381/bls12_381_curve.py"
+# ---------------------------------------------------------------- C07
+case("c07-ref-double-no-order2", "C07", RC_BN, "    if y == type(y).zero():\n        return None\n", "", rule="C07.R1")
+case("c07-ref-add-inverse-missing", "C07", RC_BLS, "    elif x2 == x1:\n        return None\n", "    elif x2 == x1 and False:\n        return None\n")
+case("c07-ref-add-newy", "C07", RC_BN, "    newy = -m * newx + m * x1 - y1\n    if not newy", "    newy = -m * newx + m * x2 - y1\n    if not newy")
+case("c07-ref-double-slope", "C07", RC_BLS, "    m = 3 * x**2 / (2 * y)", "    m = 3 * x**2 / (2 * y) + 0 * x\n    m = 2 * x**2 / (2 * y)")
+case("c07-ref-neg", "C07", RC_BN, "    return (x, -y)", "    return (x, y)")
+case("c07-ref-oncurve", "C07", RC_BLS, "    return y**2 - x**3 == b", "    return y**2 - x**2 == b")
+case("c07-multiply-no-zero", "C07", RC_BN, "    if n == 0:\n        return None\n    elif n == 1:", "    if n == 1:", rule="C07.R3")
+case("c07-multiply-odd-drops-add", "C07", OC_BN, "        return add(multiply(double(pt), int(n // 2)), pt)", "        return multiply(double(pt), int(n // 2))", rule="C07.R3")
+case("c07-multiply-wrong-half", "C07", OC_BLS, "        return multiply(double(pt), n // 2)", "        return multiply(double(pt), (n + 1) // 2)")
+case("c07-twist-coeff-bn", "C07", RC_BN, "    xcoeffs = [_x.coeffs[0] - _x.coeffs[1] * 9, _x.coeffs[1]]", "    xcoeffs = [_x.coeffs[0] - _x.coeffs[1] * 8, _x.coeffs[1]]", rule="C07.R4")
+case("c07-twist-position-bls-opt", "C07", OC_BLS, "    nx = FQ12([0] + [xcoeffs[0]] + [0] * 5 + [xcoeffs[1]] + [0] * 4)", "    nx = FQ12([0] + [xcoeffs[0]] + [0] * 4 + [xcoeffs[1]] + [0] * 5)", rule="C07.R4")
+case("c07-twist-w-power", "C07", RC_BLS, "    return (nx / w**2, ny / w**3)", "    return (nx / w**2, ny / w**2)", rule="C07.R4")
+case("c07-generator-swapped", "C07", OC_BN, "G1 = (FQ(1), FQ(2), FQ(1))", "G1 = (FQ(1), FQ(-2), FQ(1))", rule="C07.R5")
+case("c07-curve-order-ref", "C07", RC_BLS, "    52435875175126190479447740508185965837690552500527637822603658699938581184513\n", "    52435875175126190479447740508185965837690552500527637822603658699938581184515\n")
+case("c07-b2-bn-opt", "C07", OC_BN, "b2 = FQ2([3, 0]) / FQ2([9, 1])", "b2 = FQ2([3, 0]) / FQ2([1, 9])", rule="C07.R5")
+case("c07-fq12-modulus", "C07", "py_ecc/fields/field_properties.py", '"fq12_modulus_coeffs": (2, 0, 0, 0, 0, 0, -2, 0, 0, 0, 0, 0),', '"fq12_modulus_coeffs": (2, 0, 0, 0, 0, 0, 2, 0, 0, 0, 0, 0),')
+case("c07-twin-twist-bls-ref-style", "C07", OC_BLS, "    nx = FQ12([0] + [xcoeffs[0]] + [0] * 5 + [xcoeffs[1]] + [0] * 4)\n    ny = FQ12([ycoeffs[0]] + [0] * 5 + [ycoeffs[1]] + [0] * 5)\n    nz = FQ12([0] * 3 + [zcoeffs[0]] + [0] * 5 + [zcoeffs[1]] + [0] * 2)\n    return (nx, ny, nz)",
+     "    nx = FQ12([xcoeffs[0]] + [0] * 5 + [xcoeffs[1]] + [0] * 5)\n    ny = FQ12([ycoeffs[0]] + [0] * 5 + [ycoeffs[1]] + [0] * 5)\n    nz = FQ12([zcoeffs[0]] + [0] * 5 + [zcoeffs[1]] + [0] * 5)\n    return (nx * w, ny, nz * w**3)", expect="silent")
+case("c07-twin-double-reassoc", "C07", RC_BN, "    newy = -m * newx + m * x - y\n", "    newy = m * (x - newx) - y\n", expect="silent")
+case("c07-twin-multiply-iterative-style", "C07", OC_BN, "    elif not n % 2:\n        return multiply(double(pt), n // 2)", "    elif n % 2 == 0:\n        return multiply(double(pt), n // 2)", expect="silent")
